@@ -105,6 +105,24 @@ def unit_pair(name="rot"):
     return cs, sn
 
 
+def angle(name="theta", shadow_cs=(Fraction(3, 5), Fraction(4, 5))):
+    """A symbolic angle: returns theta (only usable through cos / sin of a constant multiple of it) and its pair (c, s)."""
+    import math
+
+    c = ctx()
+    cs, sn = unit_pair(name)
+    c.set_shadow({_vid_of(cs): shadow_cs[0], _vid_of(sn): shadow_cs[1]})
+    th = c.var(name, shadow=Fraction(math.atan2(float(shadow_cs[1]), float(shadow_cs[0])) * 180 / math.pi).limit_denominator(10 ** 6))
+    c.angles[_vid_of(th)] = {"c": cs, "s": sn, "coef": None}
+    return th, cs, sn
+
+
+def _vid_of(v):
+    from .sym import _vid
+
+    return _vid(v)
+
+
 class Outcome:
     __slots__ = ("status", "env", "how", "detail")
 
